@@ -150,6 +150,27 @@ impl RateLoader {
                 Ok(Some(rate.clone()))
             }
         } else {
+            // There is no entry for this date at all. If the year came from the
+            // cache, the cache may simply predate this date (it was only validated
+            // against the first date looked up in this year), so refresh the year
+            // from remote (at most once per run) rather than silently falling back
+            // to an older rate or reporting that no rate is available yet.
+            if !self.fresh_loaded_years.contains(&year) {
+                let rates = self
+                    .get_remote_usd_cad_rates(year)
+                    .await
+                    .map(|r| make_date_to_rate_map(&r))?;
+                let refreshed_rate = rates.get(&trade_date).cloned();
+                self.year_rates.insert(year, rates);
+                if let Some(rate) = refreshed_rate {
+                    return if rate.foreign_to_local_rate.is_zero() {
+                        Ok(None)
+                    } else {
+                        Ok(Some(rate))
+                    };
+                }
+            }
+
             let today = today_local();
             if trade_date == today || trade_date > today {
                 // There is no rate available for today yet, so error out.
